@@ -169,6 +169,12 @@ func runEvent(inst *Instance, pre M, msg M, faults []bool) M {
 		mb, _ := json.Marshal(msg)
 		obs["q"] = inst.QueryView(uint64(1 + crc32.ChecksumIEEE(mb)%4))
 	}
+	// C12 ("pausing stops exactly the flows it names"): when a transaction fails on a paused chain, the same
+	// transaction is also given to an identical chain that is not paused -- the pause may be blamed only for what
+	// succeeds there
+	if r.Res != "ok" && pre != nil && (pre["pausedBM"] == true || pre["pausedSR"] == true) {
+		obs["cf"] = counterfactualUnpaused(inst, pre, typeURL, wire, faults)
+	}
 	ev := M{"msg": msg, "faults": used, "obs": obs}
 	if r.Err != "" {
 		ev["note"] = r.Err
@@ -314,4 +320,20 @@ func cmdEdges(tab *SymTab, rd *os.File, bw *bufio.Writer, workers int) {
 	close(results)
 	wwg.Wait()
 	fmt.Fprintf(os.Stderr, "edges: executed %d\n", id)
+}
+
+// counterfactualUnpaused runs the transaction on a fresh chain materialised from the abstract pre-state with both
+// pause flags cleared and returns its result.
+func counterfactualUnpaused(inst *Instance, pre M, typeURL string, wire []byte, faults []bool) (res string) {
+	defer func() {
+		if r := recover(); r != nil {
+			res = "na"
+		}
+	}()
+	s := jsonRoundTrip(pre)
+	s["pausedBM"], s["pausedSR"] = false, false
+	cf := NewInstance(inst.T, false)
+	cf.C = inst.C // same codec tables (raw bodies / short wires are registered there)
+	cf.Materialise(s)
+	return cf.RunTx(typeURL, wire, faults).Res
 }
